@@ -578,14 +578,14 @@ def _type_queries(model_sections, model_segments, r):
         t = dict((f, v) for f, v in s[1]).get('sh_type')
         if t not in seen:
             seen.append(t)
-    for t in seen[:6] + ['SHT_GROUP', 0x7000beef]:
+    for t in seen[:6] + ['SHT_GROUP', 0x7000beef, 0, '']:      # absent name, absent code, and the falsy values: they filter too
         out.append(['iter_sections', t])
     seen = []
     for g in model_segments:
         t = dict((f, v) for f, v in g[0]).get('p_type')
         if t not in seen:
             seen.append(t)
-    for t in seen[:5] + ['PT_TLS', 0x7000beef]:
+    for t in seen[:5] + ['PT_TLS', 0x7000beef, 0, '']:
         out.append(['iter_segments', t])
     return out
 
@@ -717,7 +717,7 @@ def history_ops(a, spec_sections, seed):
         if ty not in types:
             types.append(ty)
     def ty():
-        return '<none>' if (not types or r.random() < 0.5) else r.choice(types + ['SHT_GROUP'])
+        return '<none>' if (not types or r.random() < 0.5) else r.choice(types + ['SHT_GROUP', 0, ''])
     def lookup(pool):
         return [r.choice(['has', 'index', 'by_name']), r.choice(pool)]
     ops = []
